@@ -188,6 +188,39 @@ def oracle(case) -> Info:
     return Info(nontrivial=three_dec and multi, classes=tuple(classes))
 
 
+def long_oracle(case) -> Info:
+    """Blocks with very many data sets, on one line or on many lines (legal syntax, far larger than any capture)."""
+    n, per_line, seed, eol = case
+    import random
+
+    rnd = random.Random(seed)
+    sets = []
+    for i in range(n):
+        addr = f"{rnd.choice([0, 1])}-{rnd.choice([0, 1])}:{i % 256}.{(i // 256) % 256}.{rnd.randrange(256)}"
+        k = rnd.choice([1, 1, 1, 2])
+        vals = [(str(rnd.randrange(10**rnd.randrange(1, 6))), rnd.choice([None, "kWh", "V", "s"])) for _ in range(k)]
+        sets.append((addr, vals))
+    lines = []
+    for i in range(0, n, per_line):
+        lines.append("".join(a + "".join("(" + v + ("" if u is None else "*" + u) + ")" for v, u in vals) for a, vals in sets[i : i + per_line]))
+    text = eol.join(lines) + eol
+    block = text.encode("ascii")
+    parsed = guarded(dlde.parse_p1_readout_content, block, what=f"parse_p1_readout_content ({n} data sets, {per_line} per line, {len(block)} bytes)")
+    got = [(ds.address, [(x.value, x.unit) for x in ds.values]) for ds in parsed]
+    if got != sets:
+        i = next((k for k in range(min(len(got), len(sets))) if got[k] != sets[k]), min(len(got), len(sets)))
+        fail(f"parse of a block with {n} data sets ({per_line} per line): {len(got)} returned; first difference at #{i}", sig="long-parse")
+    dec = guarded(dlde.decode_p1_readout_content, block, what=f"decode_p1_readout_content ({n} data sets, {per_line} per line)")
+    if not isinstance(dec, dict):
+        fail("decode of a long block did not return a dict", sig="long-decode")
+    if guarded(autodecoder.AutoDecoder().decode_message_payload, block, what="AutoDecoder.decode_message_payload") != dec:
+        fail(f"AutoDecoder and decode_p1_readout_content disagree on a block with {n} data sets ({len(block)} bytes)", sig="long-autodecoder")
+    return Info(nontrivial=n >= 500, classes=(f"per-line:{'all' if per_line >= n else per_line}", "block>8KiB" if len(block) > 8192 else "block<=8KiB"))
+
+
+long_st = st.tuples(st.sampled_from([100, 500, 989, 990, 1000, 1100, 2000, 3000]) | st.integers(1, 3000), st.sampled_from([1, 2, 10, 100, 1000, 10**6]), st.integers(0, 2**31), st.sampled_from(["\r\n", "\n"]))
+
+
 def build() -> Check:
     return Check(
         pid="C11",
@@ -200,12 +233,16 @@ def build() -> Check:
             "returns exactly the transmitted (address, values, units); k-unit results are ints within [exact-1, exact] (Fraction "
             "arithmetic); V/A/var/varh equal the correctly rounded decimal; clock is the naive datetime; others verbatim; readout decode adds "
             "exactly manufacturer id / type id; the three entry points agree. Non-trivial = >=1 three-decimal k-unit value and >=1 "
-            "multi-value data set or multi-data-set line. The class hit-exact-minus-1 counts blocks where truncation loses a unit."
+            "multi-value data set or multi-data-set line. long-blocks: 1..3000 data sets (sizes around 1000 forced) with 1, 2, 10, 100, 1000 or all "
+            "data sets per line - parse must return every data set in order, decode must succeed and agree with AutoDecoder. The class hit-exact-minus-1 counts blocks where truncation loses a unit."
         ),
         assumptions=[
             "Field names come from vlib/names.py (typed into the harness), not han.obis_map.",
             "Identification text has no trailing blank and does not begin with a backslash; text values avoid ( ) * / !.",
             "Address 1.0.0 is only generated as the clock (no unit).",
         ],
-        clauses=[HypClause("blocks", block_st, oracle, quick=12000, thorough=300000)],
+        clauses=[
+            HypClause("blocks", block_st, oracle, quick=12000, thorough=300000),
+            HypClause("long-blocks", long_st, long_oracle, quick=200, thorough=4000, doc="1..3000 data sets, all on one line or spread over lines; blocks up to ~60 KB"),
+        ],
     )
